@@ -193,12 +193,13 @@ def r2_conservative(ctx) -> None:
         if m is None:
             ctx.broken(f"anchor vanished: {c.qualname}.{mname}")
         p = m.args.args[1].arg
-        tries = [n for n in ast.walk(m) if isinstance(n, ast.Try)]
-        ok = False
-        if len(tries) == 1:
-            t = tries[0]
-            ok = len(t.body) == 1 and isinstance(t.body[0], ast.Return) and u(t.body[0].value) == f"self.{d}[{p}]" and len(t.handlers) == 1 \
-                and u(t.handlers[0].type) == "KeyError" and any(isinstance(x, ast.Raise) and exc in u(x.exc) for x in t.handlers[0].body)
+        # path summaries: the entry is returned, and the only other way out is the documented error, raised in the KeyError handler
+        ps = ctx.paths(f"{c.qualname}.{mname}")
+        rets = [q for q in ps if q.kind == "return"]
+        rest = [q for q in ps if q.kind != "return"]
+        ok = bool(rets) and all(q.value_text() == f"self.{d}[{p}]" and not q.tests for q in rets) and bool(rest) and all(
+            q.kind == "raise" and q.has_test("except_(KeyError)", True) is not None and len(q.tests) == 1 and
+            u(q.value).split("(")[0].split(".")[-1] == exc for q in rest)
         ctx.check(ok, "C11.R2", f"{c.qualname}.{mname}", c.module.path, m.lineno,
                   f"{mname}(name) must return self.{d}[name] and raise {exc} exactly when the name is absent", m)
 
